@@ -94,6 +94,15 @@ def variants(rng, c):
             out.append(('pixel', c3, impl.run_compute(c3)))
         except Exception:
             pass
+        # the same two inputs as planes of one parent array (slices of a cube share their memory)
+        try:
+            from astrodendro import Dendrogram
+            ax = rng.choice([0, -1])                  # consecutive planes, or interleaved channels
+            parent = np.stack([impl.case_array(dict(c, layout='C')), impl.case_array(dict(c3, layout='C'))], axis=ax)
+            out.append(('plane0-of-cube', c, Dendrogram.compute(parent[0] if ax == 0 else parent[..., 0], **impl.compute_kwargs(c))))
+            out.append(('plane1-of-cube', c3, Dendrogram.compute(parent[1] if ax == 0 else parent[..., 1], **impl.compute_kwargs(c3))))
+        except Exception:
+            pass
     # NaN moved / added
     c4 = copy.deepcopy(c)
     j = rng.randrange(len(c4['vals']))
